@@ -1,0 +1,10 @@
+//go:build verif
+
+package picker
+
+// Comment-only contract file for the deductive verifier in /verif (see /verif/DESIGN.md).
+// It contains no code; with the build tag off the file is not even compiled.
+//
+//@ func (*Picker).Next view search
+//@   trusted frame only: advances the picker and fills the top frame of the move store; never touches the board or the frame stack
+//@   modifies p.state, p.ix, p.ms.allocIx, p.ms.data.*
